@@ -46,7 +46,7 @@ int sm9encrypt_main(int argc, char **argv)
 	FILE *infp = stdin;
 	FILE *outfp = stdout;
 	SM9_ENC_MASTER_KEY mpk;
-	uint8_t inbuf[SM9_MAX_PLAINTEXT_SIZE];
+	uint8_t inbuf[SM9_MAX_PLAINTEXT_SIZE + 1];
 	uint8_t outbuf[SM9_MAX_CIPHERTEXT_SIZE];
 	size_t inlen, outlen = sizeof(outbuf);
 
@@ -107,6 +107,10 @@ bad:
 	}
 	if ((inlen = fread(inbuf, 1, sizeof(inbuf), infp)) <= 0) {
 		error_print();
+		goto end;
+	}
+	if (inlen > SM9_MAX_PLAINTEXT_SIZE) {
+		fprintf(stderr, "gmssl %s: input long than SM9_MAX_PLAINTEXT_SIZE (%d)\n", prog, SM9_MAX_PLAINTEXT_SIZE);
 		goto end;
 	}
 	if (sm9_encrypt(&mpk, id, strlen(id), inbuf, inlen, outbuf, &outlen) != 1) {
